@@ -2,6 +2,7 @@ mod accept;
 mod checks;
 mod driver;
 mod families;
+mod fut;
 mod ir;
 mod litmus;
 mod pool;
